@@ -633,7 +633,14 @@ impl<R: Reader> NameBucketIter<R> {
         if name_table_index.0 >= self.name_count {
             return Ok(None);
         }
-        let hash = self.reader.read_u32()?;
+        let hash = match self.reader.read_u32() {
+            Ok(hash) => hash,
+            Err(e) => {
+                // Prevent further iteration.
+                self.name_table_index.0 = self.name_count;
+                return Err(e);
+            }
+        };
         self.name_table_index.0 += 1;
         if hash % self.bucket_count != self.bucket_index {
             return Ok(None);
